@@ -37,6 +37,8 @@ inductive Err where
   | panic
   /-- the model's script oracle is missing / unreachable branch of the model -/
   | model (what : String)
+  /-- the model's retry loop ran out of fuel (proved unreachable: `retryLoop_fuel_enough`) -/
+  | outOfFuel
   deriving DecidableEq, Repr, Inhabited
 
 def Err.toString : Err → String
@@ -55,6 +57,7 @@ def Err.toString : Err → String
   | .commitFailed => "commit-failed"
   | .panic => "panic"
   | .model w => "model:" ++ w
+  | .outOfFuel => "model:retry loop out of fuel"
 
 inductive Prog (α : Type) where
   | pure : α → Prog α
@@ -78,13 +81,14 @@ def op (c : Call) : Prog c.Ret := .call c .pure
 end Prog
 
 inductive FaultKind where
-  | error | deadlock | cancel
+  | error | deadlock | cancel | ikConflict
   deriving DecidableEq, Repr, Inhabited
 
 def FaultKind.err : FaultKind → StoreErr
   | .error => .injected
   | .deadlock => .deadlock
   | .cancel => .canceled
+  | .ikConflict => .ikConflict
 
 /-- Fail the `at`-th store call of the operation (1-based, counted over every
     call on any handle, `BeginTX` / `Commit` / `Rollback` included). -/
@@ -102,16 +106,20 @@ structure RunSt where
   trace : List String := []
   deriving Repr, Inhabited
 
-def fires (f : Option Fault) (n : Nat) : Option FaultKind :=
-  match f with
-  | some x => if x.at_ = n then some x.kind else none
+/-- A fault plan: any number of one-shot faults, each at its own call number
+    (e.g. a deadlock in the first attempt and another one in the retried attempt). -/
+abbrev Faults := List Fault
+
+def fires (f : Faults) (n : Nat) : Option FaultKind :=
+  match f.find? (fun x => x.at_ == n) with
+  | some x => some x.kind
   | none => none
 
 def traceEntry (h name err : String) : String :=
   h ++ " " ++ name ++ (if err = "" then "" else " !" ++ err)
 
 /-- Run a program on handle `h`. -/
-def run {α : Type} (now : Time) (h : String) (f : Option Fault) : Prog α → RunSt → Except Err α × RunSt
+def run {α : Type} (now : Time) (h : String) (f : Faults) : Prog α → RunSt → Except Err α × RunSt
   | .pure a, st => (.ok a, st)
   | .fail e, st => (.error e, st)
   | .call c k, st =>
